@@ -345,6 +345,7 @@ pub fn check_symbols(text: &str, m: &RefOk) -> Result<(), String> {
 pub fn check_mesen(text: &str, prog: &Program, m: &RefOk, ok: &sut::AsmOk) -> Result<(), String> {
     // expected: label spans (size 0 entries that are labels) -> file byte offset
     let mut want: HashMap<String, Option<usize>> = HashMap::new();
+    let mut want_addr: HashMap<String, num_bigint::BigInt> = HashMap::new();
     let mut path: Vec<String> = Vec::new();
     for (i, it) in prog.items.iter().enumerate() {
         match it {
@@ -353,6 +354,7 @@ pub fn check_mesen(text: &str, prog: &Program, m: &RefOk, ok: &sut::AsmOk) -> Re
                 path.push(name.clone());
                 let sp = m.spans.iter().find(|s| s.item == i).unwrap();
                 want.insert(path.join("_"), sp.offset);
+                want_addr.insert(path.join("_"), sp.addr.clone());
             }
             Item::Const { dots, name, .. } => {
                 path.truncate(*dots);
@@ -369,6 +371,17 @@ pub fn check_mesen(text: &str, prog: &Program, m: &RefOk, ok: &sut::AsmOk) -> Re
         }
         let off = usize::from_str_radix(parts[1], 16).map_err(|_| format!("bad offset in {:?}", line))?;
         let Some(w) = want.get(parts[2]) else { return Err(format!("{} is listed but is not a label", parts[2])) };
+        if parts[0] == "R" {
+            // a label of a bank without output (RAM): the line carries the label's own value, the address the
+            // assembly used for it
+            if w.is_none() {
+                if let Some(a) = want_addr.get(parts[2]) {
+                    if num_bigint::BigInt::from(off) != *a {
+                        return Err(format!("label {} of a bank without output is listed as R:{:x}, its value is {:#x}", parts[2], off, a));
+                    }
+                }
+            }
+        }
         if parts[0] == "P" && all8 {
             match w {
                 Some(bitoff) if bitoff % 8 == 0 && bitoff / 8 >= 0x10 => {
